@@ -162,6 +162,21 @@ func addUniq(l []string, seen map[string]bool, xs ...string) []string {
 	return l
 }
 
+// dupIDs: two stored rows with the same live ID
+func dupIDs(rows []row) bool {
+	seen := map[uint64]bool{}
+	for _, r := range rows {
+		if r.ID == 0 {
+			continue
+		}
+		if seen[r.ID] {
+			return true
+		}
+		seen[r.ID] = true
+	}
+	return false
+}
+
 // collision: two names of `live` with the same observed ID
 func collision(ls []lookup, live []string) bool {
 	in := map[string]bool{}
@@ -355,13 +370,15 @@ func run(sc *scenario) (coq string, tags []string, err error) {
 				for i, r := range obs.Dump.C {
 					contLookups[i] = lookup{r.Name, true, r.ID}
 				}
-				for r, hit := range [3]bool{collision(obs.QIDs, qn), collision(contLookups, cn), collision(obs.SIDs, sn)} {
-					if hit {
-						tagset["collision-observed"] = true
-						if interrupted[r] {
-							tagset["F20:collision-after-rows-without-version"] = true
-						}
-					}
+				if collision(obs.QIDs, qn) || collision(contLookups, cn) || collision(obs.SIDs, sn) {
+					tagset["collision-observed"] = true
+				}
+			}
+			// the stored state F20 leads to: a registry that once had rows without a version row
+			// now holds two names with one (non-tombstone) ID
+			for r, rows := range [3][]row{obs.Dump.Q, obs.Dump.C, obs.Dump.S} {
+				if interrupted[r] && dupIDs(rows) {
+					tagset["F20:duplicate-ids-after-rows-without-version"] = true
 				}
 			}
 			terms = append(terms, fmt.Sprintf("TStart %s %s %s %s %s %d %s %s %s %s",
